@@ -100,6 +100,24 @@ func TestVerifFallbackCheckpointSave(t *testing.T) {
 				t.Fatalf("VIOLATION C05: acknowledgement on clean vb %d during the store was forgotten", ackVb)
 			}
 		}
+		if mode == 1 {
+			// the store recovers: the next save, with no progress in between, stores what the failed one did not
+			md.onSave = nil
+			md.calls, md.state, md.dirty = 0, nil, nil
+			s.checkpoint.Save()
+			if md.calls != 1 {
+				t.Fatalf("VIOLATION C05: after a failed save the next save issued %d store calls", md.calls)
+			}
+			for vb := range dirty {
+				d := md.state[vb]
+				if d == nil || d.Checkpoint.SeqNo != want[vb].SeqNo || !md.dirty[vb] {
+					t.Fatalf("VIOLATION C05: vb %d (dirty when the store failed) was not handed to the store by the next save: doc=%+v dirty=%v", vb, d, md.dirty[vb])
+				}
+				if still, _ := s.dirtyOffsets.Load(vb); still {
+					t.Fatalf("VIOLATION C05: vb %d still dirty after the retry stored it", vb)
+				}
+			}
+		}
 	}
 }
 
@@ -243,8 +261,8 @@ func TestVerifFallbackChild(t *testing.T) {
 		offs, _, _ := cp.Load()
 		o, _ := offs.Load(1)
 		t.Logf("Load returned: vb 1 resumes at %+v", o)
-	case "open-one-fails":
-		cl := &vfFailOneClient{fail: 1}
+	case "open-one-fails", "open-one-fails-socket-closed", "open-one-fails-stream-closed", "open-one-fails-shutdown":
+		cl := &vfFailOneClient{fail: 1, err: map[string]error{"open-one-fails": errors.New("open failed"), "open-one-fails-socket-closed": gocbcore.ErrSocketClosed, "open-one-fails-stream-closed": gocbcore.ErrDCPStreamClosed, "open-one-fails-shutdown": gocbcore.ErrShutdown}[mode]}
 		s := newReplayStream(ids, &vfConsumer{}, &vfMetadata{}, &cl.vfClient)
 		s.client = cl
 		s.openAllStreams(ids)
@@ -255,11 +273,12 @@ func TestVerifFallbackChild(t *testing.T) {
 type vfFailOneClient struct {
 	vfClient
 	fail uint16
+	err  error
 }
 
 func (c *vfFailOneClient) OpenStream(vbID uint16, ids map[uint32]string, o *models.Offset, ob couchbase.Observer) error {
 	if vbID == c.fail {
-		return errors.New("open failed")
+		return c.err
 	}
 	time.Sleep(150 * time.Millisecond) // the other vBuckets open after the failure has been reported
 	return nil
@@ -284,8 +303,10 @@ func TestVerifFallbackLoadAheadIsFatal(t *testing.T) {
 
 // Property C15: one assigned vBucket that cannot be opened stops the client.
 func TestVerifFallbackOpenFailureIsFatal(t *testing.T) {
-	if died, out := runChild(t, "open-one-fails"); !died {
-		t.Errorf("VIOLATION C15: a vBucket stream that cannot be opened did not stop the client: %.300s", out)
+	for _, mode := range []string{"open-one-fails", "open-one-fails-socket-closed", "open-one-fails-stream-closed", "open-one-fails-shutdown"} {
+		if died, out := runChild(t, mode); !died {
+			t.Errorf("VIOLATION C15: %s: a vBucket stream that cannot be opened did not stop the client: %.300s", mode, out)
+		}
 	}
 }
 
